@@ -326,12 +326,18 @@ def main(argv=None):
         if (j["file"], j["unit"]) in failing_units:
             continue
         # (if any unit of the check is unproved, no unit's "proved" status stands on its own: callers rest on callee contracts)
-        if unproved_units and res.get("failed") and "harness_error" not in res:
+        # A contract that was PROVED and still fails on the real code for a concrete input is reported as the violation it is (the input
+        # is replayed on the real function); that the proof did not see it is a gap of the verifier's model of Python - object identity
+        # (`is` on strings), two names bound to one object (`a = b = {}`) - and is said so in the replay file.  On the pinned tree every
+        # native cross-check passes, so this never fires there.
+        if res.get("failed") and "harness_error" not in res:
             name = f"{pid}/{j['unit']}/native-contract-check"
             path = os.path.join(ROOT, "replay", pid, hashlib.sha1((name + json.dumps(j.get("params"), default=str)).encode()).hexdigest()[:12] + ".json")
             json.dump({"property": pid, "obligation": name, "clause": res.get("failed"), "status": "native-failure", "backend": "native",
                        "model": {"params": j.get("params"), "self": j.get("self")}, "native_replay": res, "confirmed_on_real_code": True,
-                       "note": "the unit is outside the verifier's reach on this tree (tool limit); its contract fails on the real code for this input",
+                       "note": ("the unit is outside the verifier's reach on this tree (tool limit); its contract fails on the real code for this input" if unproved_units else
+                                "the contract was proved from the source and yet fails on the real code for this input: the verifier's model of Python misses what this code does "
+                                "(object identity, aliasing of module-level objects, ...); the failure on the real code stands"),
                        "reproduce": f"cd {ROOT} && REDUINO_REPO={repo} python3-vt -m pyvc.driver {pid}"}, open(path, "w"), indent=1, default=str)
             if not any(v[0]["name"] == name for v in violations):
                 violations.append(({"name": name, "where": str(res.get("failed"))[:200], "status": "sat"}, path, True))
